@@ -23,6 +23,7 @@ RULE = (
     'whose transit exceeds the window; distinct = SHA-1 of (jump table, sites, window, cut-off).'
 )
 RULE += ' Added in rounds 5-10: injected tables in 5 row orders, 4 kinds of row labels and permuted column orders; cut-offs 0, negative, 1e-9; windows 0 and negative.'
+RULE += ' Round 14: 12 (600) strictly periodic hopping runs whose attempt period is an exact whole number of time steps: window = that number, pairs recomputed with it.'
 RULE += ' Round 12: a quarter of the cut-offs lie 1e-10..1e-7 A above or below one of the site-site distances.'
 ASSUMPTIONS = [
     'cut-offs are kept 1e-6 A away from every site-site distance (the comparison is strict <)',
@@ -36,7 +37,51 @@ _mon = Monitor()
 
 
 def units(tier):
-    return [{'k': 'rand', 'i': i} for i in range(N_CASES[tier])]
+    # 'periodic': strictly periodic hopping, for which the attempt period is (often) an exact whole number of time steps
+    return [{'k': 'rand', 'i': i} for i in range(N_CASES[tier])] + [{'k': 'periodic', 'i': i} for i in range(12 if tier == 'quick' else 600)]
+
+
+def run_periodic(unit, rng, ctx):
+    """Atoms hopping back and forth between two sites with a fixed period: 1 / (attempt frequency x time step) is an
+    exact integer for many of these runs; the correlation window is then that integer (its ceiling), not one more."""
+    from gemdat.metrics import TrajectoryMetrics
+    from pymatgen.core import Lattice, Structure
+
+    lens = rng.uniform(7.0, 10.0, size=3)
+    m = np.diag(lens)
+    pat = [[0, 1, 1, 0], [0, 0, 1, 1, 1, 1, 0, 0], [0, 1, 1, 1, 1, 0, 0, 0], [1, 1, 0, 0]][int(rng.integers(4))]
+    P = len(pat)
+    T = 8 * int(rng.integers(3, 16))
+    dt = float(rng.choice([1e-15, 2e-15, 5e-16]))
+    n_at = int(rng.integers(2, 4))
+    sites, cols = [], []
+    for a_ in range(n_at):
+        pa = np.array([0.1 + 0.3 * a_, 0.15 + 0.2 * a_, 0.2])
+        pb = pa + np.array([0.0, 0.0, 2.0 / lens[2]])
+        sites += [pa, pb]
+        ph = int(rng.integers(P)) if a_ else 0
+        st = np.array([pat[(t_ + ph) % P] for t_ in range(T)])
+        cols.append(np.where(st[:, None] == 0, pa, pb))
+    X = np.stack(cols, axis=1)
+    traj = gen.make_trajectory(m, gen.species_objects(['Li'] * n_at), X, time_step=dt, metadata={'temperature': 500.0}, presentation='plain')
+    struct = Structure(lattice=Lattice(m), species=['Li'] * len(sites), coords=np.array(sites), labels=['A'] * len(sites))
+    with warnings.catch_warnings():
+        warnings.simplefilter('ignore')
+        tr = traj.transitions_between_sites(sites=struct, floating_specie='Li', site_radius=0.6)
+        j = tr.jumps()
+        freq = float(TrajectoryMetrics(tr.diff_trajectory).attempt_frequency()[0])
+        x = 1.0 / (freq * dt)
+        coll = j.collective(max_dist=float(rng.uniform(1.0, 5.0)))
+    what = f'periodic hopping pattern {pat} T={T} dt={dt} atoms={n_at}: 1/(f dt) = {x!r}'
+    ctx.check(coll.max_steps == math.ceil(x), f'{what}: correlation window {coll.max_steps} != ceil(1/(f dt)) = {math.ceil(x)}')
+    ctx.count('periodic_hopping_runs')
+    ctx.count('runs_whose_attempt_period_is_an_exact_number_of_time_steps', x == round(x))
+    rows = [tuple(int(v) for v in r) for r in j.data[COLS].to_numpy()]
+    want_idx = models.collective_pairs(rows, np.array(sites), m, math.ceil(x), float(coll.max_dist))
+    got = {frozenset((row_key(a), row_key(b))) for a, b in coll.collective}
+    want = {frozenset((rows[i_], rows[j_])) for i_, j_ in want_idx}
+    ctx.check(got == want, f'{what}: {len(got)} collective pairs reported, {len(want)} pairs lie within the window {math.ceil(x)} and the cut-off {coll.max_dist:.3f} ({len(got - want)} spurious, {len(want - got)} missing)')
+    ctx.case(f'periodic{unit["i"]}', x == round(x), sample={'kind': 'periodic', 'pattern': pat, 'T': T, 'dt': dt, 'attempt_period_in_steps': x})
 
 
 def setup(ctx):
@@ -140,6 +185,8 @@ def random_table(rng, n_sites, n_rows, n_atoms, tmax):
 
 
 def run_unit(unit, rng, ctx):
+    if unit.get('k') == 'periodic':
+        return run_periodic(unit, rng, ctx)
     import pandas as pd
     from gemdat.collective import Collective
     from gemdat.jumps import Jumps
